@@ -39,6 +39,9 @@ class Contract(object):
         self.subst = None
         self.like = None
         self.uses = []          # names of lemmas assumed (they are proved separately, by induction)
+        self.loop_hints = {}    # ordinal -> [Clause]: facts proved, then assumed, at the end of each iteration
+        self.uses_at = []
+        self.exit_hints = []
 
 
 class ClassInfo(object):
@@ -87,6 +90,9 @@ class Lemma(object):
         self.induct = None
         self.props = []
         self.uses = []
+        self.hints = []
+        self.generalize = []
+        self.measure = None     # (param, expr): the induction variable is this function of the other parameters
         self.file = path
         self.lineno = node.lineno
         for st in node.body:
@@ -99,6 +105,12 @@ class Lemma(object):
             elif k == 'ensures':
                 lab = call.args[1].value if len(call.args) > 1 else 'post%d' % len(self.ensures)
                 self.ensures.append(Clause('ensures', call.args[0], lab, st.lineno))
+            elif k == 'generalize':
+                self.generalize = [a.id for a in call.args]
+            elif k == 'measure':
+                self.measure = (call.args[0].id, call.args[1])
+            elif k == 'hint':
+                self.hints.append(Clause('hint', call.args[0], 'hint%d' % len(self.hints), st.lineno))
             elif k == 'induct':
                 self.induct = call.args[0].id
             elif k == 'props':
@@ -137,6 +149,8 @@ class Registry(object):
                 for n, cls in src.invariants.items():
                     c.invariants.setdefault(n, [])
                     c.invariants[n] = copy.deepcopy(cls) + c.invariants[n]
+                for n, cls in src.loop_hints.items():
+                    c.loop_hints[n] = copy.deepcopy(cls) + c.loop_hints.get(n, [])
                 for n, d in src.loop_types.items():
                     dd = dict(d)
                     dd.update(c.loop_types.get(n, {}))
@@ -269,6 +283,9 @@ class Registry(object):
             elif k == 'invariant':
                 n = ast.literal_eval(args[0])
                 c.invariants.setdefault(n, []).append(Clause('invariant', args[1], lab(2, 'inv%d_%d' % (n, len(c.invariants.get(n, [])))), st.lineno))
+            elif k == 'loop_hint':
+                n = ast.literal_eval(args[0])
+                c.loop_hints.setdefault(n, []).append(Clause('hint', args[1], 'hint%d_%d' % (n, len(c.loop_hints.get(n, []))), st.lineno))
             elif k == 'loop_types':
                 n = ast.literal_eval(args[0])
                 for kw in call.keywords:
@@ -277,7 +294,13 @@ class Registry(object):
                 for kw in call.keywords:
                     c.local_types[kw.arg] = ptypes.parse_type(kw.value)
             elif k == 'uses':
-                c.uses.extend(a.id for a in args)
+                for a in args:
+                    if isinstance(a, ast.Name):
+                        c.uses.append(a.id)
+                    else:
+                        c.uses_at.append(a)          # lemma(args): instance at the given arguments (evaluated at entry)
+            elif k == 'exit_hint':
+                c.exit_hints.append(Clause('hint', args[0], lab(1, 'exit_hint%d' % len(c.exit_hints)), st.lineno))
             elif k == 'assumes':
                 c.assumes.append(Clause('assumes', args[0], lab(1, 'assume%d' % len(c.assumes)), st.lineno))
             elif k == 'options':
